@@ -47,6 +47,13 @@ impl RespParser {
             return Ok(None);
         }
         
+        // A partial raw "PING" must wait for more data, otherwise the outcome depends on
+        // how the bytes were split into reads ("PI" + "NG" vs "PING")
+        let rest = &self.buffer[self.position..];
+        if rest.len() < 4 && b"PING".starts_with(rest) {
+            return Ok(None);
+        }
+        
         // Special handling for raw protocol (e.g., redis-benchmark sometimes sends raw "PING")
         if self.position + 4 <= self.buffer.len() && 
            &self.buffer[self.position..self.position+4] == b"PING" {
